@@ -9,6 +9,7 @@ import (
 	"math"
 	"strconv"
 	"strings"
+	"sync"
 	"time"
 	"unicode/utf8"
 
@@ -266,6 +267,14 @@ func (s *ItemSpec) Make() Made {
 	case "cell":
 		in := s.Inner.Make()
 		m.Item = tabular.NewCell(in.Item)
+	case "numlabel":
+		m.Item = MakeNumLabel(string(s.Str))
+	case "floatlabel":
+		m.Item = MakeFloatLabel(string(s.Str))
+	case "boollabel":
+		m.Item = BoolLabel(s.Num%2 == 0)
+	case "durmicro":
+		m.Item = time.Duration(1500 + s.Num%7*1000)
 	case "fielder":
 		m.Item = FielderItem{string(s.Str)}
 	case "owneritem":
@@ -386,7 +395,7 @@ func (s *ItemSpec) TextWith(f *Fields) string {
 		return s.Inner.Text()
 	case "cellptr":
 		return s.Inner.TextWith(f) // the cell pointed at follows its item (see Make)
-	case "anonG", "anonPS", "anonSE", "tplhtml", "tpljs", "tplurl", "tplattr", "jsonnumber", "lookS", "lookSB", "lookW", "lookH", "cellcycle1", "cellcycle2", "twinnameStr", "fielder", "owneritem", "cellish", "bothmarshal", "textmarshal":
+	case "anonG", "anonPS", "anonSE", "tplhtml", "tpljs", "tplurl", "tplattr", "jsonnumber", "lookS", "lookSB", "lookW", "lookH", "cellcycle1", "cellcycle2", "twinnameStr", "fielder", "owneritem", "cellish", "bothmarshal", "textmarshal", "numlabel", "floatlabel":
 		return string(s.Str) // promoted GoString / String (String before Error); named string types read as their value
 	case "aggslice", "aggstringer", "aggarrmap":
 		// by-value aggregates which reach mutable state through an interior reference
@@ -469,6 +478,33 @@ func (r *R) TextItem(fam Fam, maxAtoms int) ItemSpec {
 	return r.WrapText(s)
 }
 
+// TextItemSized is TextItem, except that one typed item in five also declares a size of its own - any size, and in
+// particular the sizes that COINCIDE with something: the byte length of the text, its rune count, its display
+// width, its number of lines, zero.  What a size-declaring item declares is a matter for layout; what a renderer
+// escapes, quotes or encodes is the text.
+func (r *R) TextItemSized(fam Fam, maxAtoms int, measure func(string) int) ItemSpec {
+	it := r.TextItem(fam, maxAtoms)
+	if it.K != "typed" || it.F == nil || it.Pre != nil || !strings.HasSuffix(it.Code, "_0") || !r.Chance(1, 5) {
+		return it
+	}
+	txt := it.Text()
+	code := strings.TrimSuffix(it.Code, "_0") + Pick(r, []string{"_W", "_HW", "_H", "_W", "_HW"})
+	ok := false
+	for _, c := range TypeCodes {
+		if c == code {
+			ok = true
+		}
+	}
+	if !ok {
+		return it
+	}
+	f := *it.F
+	sizes := []int{len(txt), utf8.RuneCountInString(txt), measure(txt), 1 + strings.Count(txt, "\n"), 0, r.DeclSize(), len(txt) + 1}
+	f.WV, f.HV = Pick(r, sizes), Pick(r, sizes)
+	out := TypedItem(code, f, it.Ptr)
+	return out
+}
+
 var textCodes = []string{"VS_0", "VG_0", "VE_0", "VSG_0", "VSGE_0", "PS_0", "PGE_0", "VSE_0"}
 
 // WrapText returns an item whose documented text form is s.
@@ -527,7 +563,7 @@ func (r *R) WrapText(s string) ItemSpec {
 		// other carriers whose documented text form is s: named string types of other packages (html/template's
 		// "trusted" strings, read as their value like any named string), a named string of this package, unnamed
 		// struct types with a promoted GoString or String
-		return ItemSpec{K: Pick(r, []string{"tplhtml", "tplhtml", "tpljs", "tplurl", "tplattr", "mystr", "anonG", "anonPS", "anonSE", "lookS", "lookSB", "lookW", "lookH", "twinnameStr", "twinnameStr", "fielder", "owneritem", "cellish", "bothmarshal", "textmarshal"}), Str: Q(s)}
+		return ItemSpec{K: Pick(r, []string{"tplhtml", "tplhtml", "tpljs", "tplurl", "tplattr", "mystr", "anonG", "anonPS", "anonSE", "lookS", "lookSB", "lookW", "lookH", "twinnameStr", "twinnameStr", "fielder", "owneritem", "cellish", "bothmarshal", "textmarshal", "numlabel", "floatlabel"}), Str: Q(s)}
 	default:
 		return StrItem(s)
 	}
@@ -573,7 +609,7 @@ func (r *R) AnyItem(fam Fam, maxAtoms, depth int) ItemSpec {
 	case 4:
 		return ItemSpec{K: "bool", Num: int64(r.Intn(2))}
 	case 5:
-		return ItemSpec{K: Pick(r, []string{"mystr", "bytes", "err", "fmtstr", "aggslice", "aggstringer", "aggarrmap", "anonG", "anonPS", "anonSE", "tplhtml", "tpljs", "tplurl", "tplattr", "tplhtml", "jsonnumber", "ifacestruct", "ifacearr", "lookS", "lookSB", "lookW", "lookH", "lookNone", "cellcycle1", "cellcycle2", "twinnameStr", "twinnameNum", "twinnameBool", "fielder", "owneritem", "cellish", "bothmarshal", "textmarshal"}), Str: Q(r.Str(fam, maxAtoms)), Num: int64(r.Intn(3))}
+		return ItemSpec{K: Pick(r, []string{"mystr", "bytes", "err", "fmtstr", "aggslice", "aggstringer", "aggarrmap", "anonG", "anonPS", "anonSE", "tplhtml", "tpljs", "tplurl", "tplattr", "tplhtml", "jsonnumber", "ifacestruct", "ifacearr", "lookS", "lookSB", "lookW", "lookH", "lookNone", "cellcycle1", "cellcycle2", "twinnameStr", "twinnameNum", "twinnameBool", "fielder", "owneritem", "cellish", "bothmarshal", "textmarshal", "numlabel", "floatlabel", "boollabel", "durmicro"}), Str: Q(r.Str(fam, maxAtoms)), Num: int64(r.Intn(3))}
 	case 6:
 		return ItemSpec{K: Pick(r, []string{"slice", "map", "struct", "structptr", "complex", "complex64", "fmtfloat"}), Str: Q(r.Str(FAscii, 2)), Num: int64(r.Intn(9)), Flt: 1.5}
 	case 7:
@@ -791,3 +827,37 @@ func (b TextOnlyMarshal) MarshalText() ([]byte, error) {
 	return []byte("text form for encodings: " + b.ID), nil
 }
 func (b TextOnlyMarshal) String() string { return b.ID }
+
+// Numbers with a text of their own: named types of integer, float and bool KIND whose text methods say something
+// else than digits (a level, a unit, a label - wide characters, several lines).  The kind of an item says nothing
+// about its text.  (The texts live in a registry, since a number has no room for one.)
+type NumLabel int64
+
+type FloatLabel float64
+
+type BoolLabel bool
+
+var numLabelTexts sync.Map
+
+// labelID is the number standing for a text: the same for the same text in every build and every process (what the
+// JSON encoder shows of such an item is the number), and small enough to be exact as a float64.
+func labelID(s string) int64 {
+	n := int64(Hash64("label", s) >> 14)
+	numLabelTexts.Store(n, s)
+	return n
+}
+
+func MakeNumLabel(s string) NumLabel { return NumLabel(labelID(s)) }
+
+func MakeFloatLabel(s string) FloatLabel { return FloatLabel(labelID(s)) }
+
+func labelText(n int64) string {
+	if v, ok := numLabelTexts.Load(n); ok {
+		return v.(string)
+	}
+	return ""
+}
+
+func (n NumLabel) String() string     { return labelText(int64(n)) }
+func (f FloatLabel) GoString() string { return labelText(int64(f)) }
+func (b BoolLabel) Error() string     { return "mäßig\nzweite Zeile 世界" }
